@@ -1120,6 +1120,11 @@ func (m *Manager) isValidSignedData(signedData *types.SignedData) bool {
 	if !bytes.Equal(signedData.Signer.Address, m.genesis.ProposerAddress) {
 		return false
 	}
+	// the signature is checked against the public key carried in the item: it must be the key the
+	// proposer's address was derived from
+	if signedData.Signer.PubKey == nil || !bytes.Equal(types.KeyAddress(signedData.Signer.PubKey), signedData.Signer.Address) {
+		return false
+	}
 	dataBytes, err := signedData.Data.MarshalBinary()
 	if err != nil {
 		return false
